@@ -32,7 +32,7 @@ func init() {
 		Technique: "term agreement between witnessed key and storage key, must-facts at the stores (state guards), exit-fact equivalences (both representations touched together), dispatch coverage of the state enumeration",
 		Explanation: "D1 the key under which a candidate is stored is the witnessed term (AddPeer: nodeInfo[2:35], AddNode: n.Key, UpdateState: publicKey) and both witnesses are required (C03). D2 the state stored on add is Online. " +
 			"D3 every effect of updateCandidateState happens under state ∈ {Online, Offline, Maintenance} (= the declared enumeration), the default arm cannot return. D4 removeFromNetmap deletes 'candidate'‖k and '2'‖k with the same k on every path; updateNetmapState rewrites every representation that is present (exit facts: absent ∨ rewritten) as the stored record with only State replaced by the requested state, and cannot return normally with no write. " +
-			"D5 exactly one UpdateStateSuccess(key, state) per successful update, AddPeerSuccess/AddNode exactly with their store, no other emitters. D0 every effect of AddPeer/AddPeerIR/AddNode/UpdateState/UpdateStateIR/DeleteNode is gated by the documented witnesses (the gate rule of C03). R6: every normal return of AddPeer/AddPeerIR/AddNode has stored the candidate. R9: no fault of DeleteNode/UpdateState* is decided on the presence of one candidate representation alone.",
+			"D5 exactly one UpdateStateSuccess(key, state) per successful update, AddPeerSuccess/AddNode exactly with their store, no other emitters. D0 every effect of AddPeer/AddPeerIR/AddNode/UpdateState/UpdateStateIR/DeleteNode is gated by the documented witnesses (the gate rule of C03). R6: every normal return of AddPeer/AddPeerIR/AddNode has stored the candidate. R9: no fault of DeleteNode/UpdateState* is decided on the presence of one candidate representation alone. S3: the legacy listing (NetmapCandidates) collects every scanned candidate record (collect-every; the accumulating append has a loop-carried base). The update/remove rules speak about sets of sites (a fast path may repeat a delete, a rewrite, the notification); UpdateStateSuccess is emitted only on behalf of the update/remove entry points.",
 		NotCovered: "agreement with a reference model over operation histories; well-formedness of the node BLOB.",
 		Run:        runC07,
 	})
